@@ -465,17 +465,28 @@ def run(ctx):
               if U.node_has_call(pcfg, d, 'create_context')]
         sc = [d for d in pcfg.dominators(n)
               if U.node_has_call(pcfg, d, 'set_ctx')]
+        # the context in force when the workflow is started: the nearest
+        # dominating set_ctx; its argument is the value of
+        # create_context(trigger.trust_id, trigger.project_id)
         okc = False
-        for d in cc:
-            for sub in pcfg.own_nodes(d):
-                if isinstance(sub, ast.Call) and \
-                        U.call_name(sub) == 'create_context':
-                    okc = [norm(a) for a in sub.args] == [
-                        'trigger.trust_id', 'trigger.project_id']
-        r4.check(okc and bool(sc) and 'trust_ctx' in norm(
-            sc[0].ast, 200), ctx.construct(pc, extra='security context'),
-            'the workflow is not started under a context created from the '
-            'trigger\'s trust and project', ctx.loc(pc, c))
+        if sc:
+            last = max(sc, key=lambda d: len(pcfg.dominators(d)))
+            call = [x for x in pcfg.own_nodes(last)
+                    if isinstance(x, ast.Call) and
+                    U.call_name(x) == 'set_ctx'][0]
+            a = call.args[0] if call.args else None
+            vals = [a]
+            if isinstance(a, ast.Name):
+                vals = list(U.reaching_defs(pcfg, a.id)[last.id])
+            okc = bool(vals) and all(
+                isinstance(v, ast.Call) and
+                U.call_name(v) == 'create_context' and
+                [norm(x) for x in v.args] == ['trigger.trust_id',
+                                              'trigger.project_id']
+                for v in vals)
+        r4.check(okc and bool(cc), ctx.construct(pc, extra='security context'),
+                 'the workflow is not started under a context created from '
+                 'the trigger\'s trust and project', ctx.loc(pc, c))
     trust_context_table(ctx, r4)
     ct = prog.func(TRG + '.create_cron_trigger')
     ccfg = ctx.cfg(ct)
